@@ -492,6 +492,11 @@ pub fn scripted(o: &mut Out, rep_cases: &mut usize, oracle_cases: &mut usize) {
   let cases: Vec<(SupportLang, &str, &str, &str, Option<&str>, &str)> = vec![
     (JavaScript, "foo()", "foo($$$ARGS)", "bar($$$ARGS)", Some("bar()"), "an ellipsis variable bound to no node"),
     (JavaScript, "foo(1, 2)", "foo($$$ARGS)", "bar($$$ARGS)", Some("bar(1, 2)"), "scripted"),
+    // every capturing spelling: `$A`, `$$A` (any node, named or not), `$$$A`
+    (JavaScript, "foo(1)", "foo($$A)", "bar($$A)", Some("bar(1)"), "scripted"),
+    (JavaScript, "foo(1, 2)", "foo($$A, $B)", "bar($B, $$A, $$A)", Some("bar(2, 1, 1)"), "scripted"),
+    (Python, "foo(1)", "foo($$A)", "bar(µµA)", Some("bar(1)"), "scripted"),
+    (Rust, "fn m() { foo(1); }", "foo($$A)", "bar(µµA)", Some("bar(1)"), "scripted"),
     (JavaScript, "a = a", "$X = $X", "$X + $X", Some("a + a"), "scripted"),
     (JavaScript, "print(\"héllo → 世界\")", "print($A)", "log(\"ß\", $A, $A)", Some("log(\"ß\", \"héllo → 世界\", \"héllo → 世界\")"), "scripted"),
     (JavaScript, "f(1, 2)", "f($A, $B)", "if ($A { $B }", Some("if (1 { 2 }"), "a MISSING token without a next sibling ends the substitution"),
@@ -566,7 +571,12 @@ pub fn scripted(o: &mut Out, rep_cases: &mut usize, oracle_cases: &mut usize) {
     *rep_cases += 1;
     if let Some(want) = want {
       *oracle_cases += 1;
-      if real["text"].as_str().map(|g| g.trim_end() == want.trim_end()) != Some(true) {
+      if class == "scripted" && real["text"].as_str().map(|g| g.trim_end() == want.trim_end()) != Some(true) {
+        // a BOUND variable written in a capturing spelling is replaced by what it captured: that much is
+        // the common ground of every replacer (C07, C20) and is judged
+        o.oracle("structural-bound-variable", false, json!({"fp": "structural replacer: a bound variable in a capturing spelling is not replaced by the captured text",
+          "lang": lang.to_string(), "pattern": ptext, "matched": doc_text, "replacement": rtext, "got": real, "want": want}));
+      } else if real["text"].as_str().map(|g| g.trim_end() == want.trim_end()) != Some(true) {
         observe(o, "structural-substitutes",
           json!({"fp": format!("structural-substitutes: {class}"), "lang": lang.to_string(), "pattern": ptext, "matched": doc_text,
                  "replacement": rtext, "got": real, "want": want}),
